@@ -93,6 +93,26 @@ def gen_tree(rng, tname, exotic=0.0, pkg_bias=0.0, p_links=0.0):
             tree.files[f] = ""
             tree.pyfiles.append(f)
             count += 1
+    if rng.random() < 0.25:
+        # file and directory names as people leave them behind ("core-old.py", "util copy/"): they
+        # cannot be imported, but a scan lists them under exactly that name; often the plain name
+        # they continue does not exist next to them
+        for _ in range(rng.randint(1, 3)):
+            parent = pick(rng, sorted(tree.pkg_depth))
+            base = pick(rng, NAMES)
+            name = base + pick(rng, ["-", " ", "-", "~"]) + pick(rng, ["old", "v2", "copy"])
+            existing = tree.children(parent)
+            if name in existing or (name + ".py") in existing:
+                continue
+            if tree.pkg_depth[parent] < max_depth and rng.random() < 0.3:
+                d = f"{parent}/{name}"
+                tree.dirs.append(d)
+                tree.pkg_depth[d] = tree.pkg_depth[parent] + 1
+                tree.files[f"{d}/{pick(rng, NAMES)}.py"] = ""
+                tree.pyfiles.append(sorted(k for k in tree.files if k.startswith(d + "/"))[0])
+            else:
+                tree.files[f"{parent}/{name}.py"] = ""
+                tree.pyfiles.append(f"{parent}/{name}.py")
     for d in sorted(tree.pkg_depth):
         if rng.random() < 0.75:
             f = f"{d}/__init__.py"
@@ -199,9 +219,13 @@ def _wrap(rng, stmt):
 
 
 def _gen_imports(rng, tree, pkg_bias=0.0):
-    mods = [m for m in tree.all_modules() if "__pycache__" not in m and not m.endswith("__init__")]
+    def importable(m):  # "core-old" can be scanned, not imported
+        return all(p.isidentifier() for p in m.split("."))
+
+    mods = [m for m in tree.all_modules() if "__pycache__" not in m and not m.endswith("__init__")
+            and importable(m)]
     file_mods = [tree.dotted(f) for f in tree.pyfiles
-                 if "__pycache__" not in f and not f.endswith("__init__.py")]
+                 if "__pycache__" not in f and not f.endswith("__init__.py") and importable(tree.dotted(f))]
     density = rng.choice([0.5, 1.0, 1.5, 2.5])
     ext_rate = rng.choice([0.0, 0.15, 0.3, 0.4])
     fav = rng.sample(EXTERNALS, rng.randint(2, 4))  # a project leans on a few libraries, again and again
@@ -460,9 +484,11 @@ def gen_puml(rng, tree, modules, p_ghost=0.2, p_alias=0.35):
     if not pkgs:
         return None
     base = pick(rng, pkgs)
+    # the documented diagram syntax writes component names with word characters only: "core-old" can
+    # be a module, it cannot be a component
     kids = sorted({m[len(base) + 1:] for m in modules
                    if m.startswith(base + ".") and "." not in m[len(base) + 1:]
-                   and not m.endswith("__init__")})
+                   and not m.endswith("__init__") and m[len(base) + 1:].isidentifier()})
     if rng.random() < p_ghost:
         kids.append(pick(rng, ["ghost", "phantom"]))  # component that is not a module
     if len(kids) < 2:
